@@ -73,9 +73,34 @@ def one_run(P, prop, seed, idx, cfg, baseline, known_clauses, out):
     if not viol:
         return
     kn, new = [], viol
+    own = [v for v in viol if 'ops' in v]          # violations of fault cases carry their own history
+    plain = [v for v in viol if 'ops' not in v]
     if baseline:
-        _mb, viol_base = judges.evaluate(prop, ops, baseline, P.opts)
-        kn, new = judges.split_known(prop, viol, viol_base, known_clauses)
+        kn, new = [], []
+        if plain:
+            _mb, viol_base = judges.evaluate(prop, ops, baseline, P.opts)
+            k1, n1 = judges.split_known(prop, plain, viol_base, known_clauses)
+            kn += k1
+            new += n1
+        if own:
+            # first pass: the same seeded job on the baseline; identical behaviour gives identical cases
+            zb = runner.zygote(baseline)
+            mb = zb.run(job)
+            base_keys = {}
+            for v in mb['viol']:
+                if 'ops' in v:
+                    k = judges.canon(v) + ophash(v['ops'])
+                    base_keys[k] = base_keys.get(k, 0) + 1
+            for v in own:
+                k = judges.canon(v) + ophash(v['ops'])
+                if v['clause'] in known_clauses and base_keys.get(k, 0) > 0:
+                    kn.append(v)
+                    continue
+                # second pass: this very history on the baseline
+                _mb2, vb = judges.evaluate(prop, v['ops'], baseline, P.opts)
+                k2, n2 = judges.split_known(prop, [v], vb, known_clauses)
+                kn += k2
+                new += n2
     for v in kn:
         out['known'][v['clause']] = out['known'].get(v['clause'], 0) + 1
     seen = out.setdefault('_reported', {})
@@ -103,6 +128,8 @@ def report(P, prop, seed, idx, ops, v, baseline, known_clauses, main):
             return bool(nw)
         return True
 
+    if 'ops' in v:
+        ops = v['ops']
     upto = v.get('at')
     cand0 = ops[:upto + 1] if isinstance(upto, int) and upto >= 0 and P.prefix_closed else ops
     if not fails(cand0):
@@ -268,6 +295,18 @@ def replay_file(path):
     rep = json.load(open(path))
     prop = rep['property']
     P = props.get(prop)
+    if rep.get('mode') == 'locale':
+        from . import extras
+        r = extras.c17_locale(prop, 'quick', 0, None)
+        hit = [v for v in r.get('violations', []) if v['clause'] == rep['clause']]
+        for c in r.get('samples', []):
+            print('  ', json.dumps(c))
+        if hit:
+            print('VIOLATION property=%s replay=%s' % (prop, path))
+            print('  clause=%s detail=%s' % (rep['clause'], json.dumps(hit[0]['detail'])[:400]))
+            return 1
+        print('not reproduced: clause %s does not occur' % rep['clause'])
+        return 0
     if rep.get('mode') == 'threads':
         from . import threads
         return threads.replay(rep)
